@@ -14,7 +14,7 @@
 #include "ioerrs.h"
 #include "chunks.h"
 
-long g_src0, g_tgt0, g_cplen;
+long g_src0, g_tgt0, g_cplen, g_src_end, g_tgt_end; int g_wmatch;
 static int g_exit_code;
 #undef errno
 #define errno verif_errno
@@ -87,12 +87,17 @@ void h_ProcessFile_data(void) {
     sel = g_doit && seg == ValidSegment && estop >= estart;
     /* the target is large enough for the window (OpenTarget's job, see h_OpenTarget) */
     VASSUME(gf[1].len >= hdr + ((long)StopAdr - (long)StartAdr + 1) * gran);
-    g_src0 = 12 + (long)(estart - istart) * gran;
-    g_tgt0 = hdr + (long)(estart - StartAdr) * gran;
+    g_src0 = sel ? 12 + (long)(estart - istart) * gran : 12;
+    g_tgt0 = sel ? hdr + (long)(estart - StartAdr) * gran : hdr;
     g_cplen = sel ? (long)(estop + 1 - estart) * gran : 0;
     VASSUME(g_cplen <= 0xffff);
     /* witnesses: byte k of the copied part in source and target, or any other target byte */
     { long k; VND(k, long); VASSUME(k >= 0 && k < 0x10000); gf[0].w_off = g_src0 + k; }
+    g_src_end = g_src0 + g_cplen; g_tgt_end = g_tgt0 + g_cplen;
+    /* lemma (asserted, then assumed): the copied part lies inside the record's payload, hence inside the source file */
+    VASSERT(g_src0 >= 12 && g_src_end <= 12 + (long)len, "C05 lemma: the part of a record that falls into the window lies inside its payload");
+    VASSUME(g_src0 >= 12 && g_src_end <= 12 + (long)len && g_src_end < gf[0].len);
+    g_wmatch = (gf[0].w_off - g_src_end == gf[1].w_off - g_tgt_end);
     tlen0 = gf[1].len; old = gf[1].w_val;
     g_chunk_calls = 0; g_filter_arg = -1;
     ProcessFile(name, offs);
@@ -100,7 +105,7 @@ void h_ProcessFile_data(void) {
     VPOST(gf[1].len == tlen0, "C05: copying a record never changes the length of the image");
     if (sel) {
         if (gf[1].w_off >= g_tgt0 && gf[1].w_off < g_tgt0 + g_cplen) {
-            if (gf[0].w_off - g_src0 == gf[1].w_off - g_tgt0) { VPOST(gf[1].w_val == gf[0].w_val, "C05: the byte at address A, lane b of a selected record is at offset header + (A-start)*gran + b of the image"); VREACH("copied"); }
+            if (g_wmatch) { VPOST(gf[1].w_val == gf[0].w_val, "C05: the byte at address A, lane b of a selected record is at offset header + (A-start)*gran + b of the image"); VREACH("copied"); }
         } else { VPOST(gf[1].w_val == old, "C05: bytes outside the record's part of the window are not written"); VREACH("outside"); }
         VPOST(g_chunk_calls == 1 && g_chunk_start == estart && g_chunk_len == estop - estart + 1, "C05: the used-address bookkeeping (overlap warning) sees exactly the placed range");
     } else {
